@@ -5,7 +5,7 @@ from .. import common, attr, spellings
 
 def main(tier):
     t0 = time.time()
-    proof = common.proof_obligations("C14")
+    proof = common.proof_obligations("C14", modules=["EduceModel.Props.C14", "EduceModel.Props.ListParse"])
     rng = random.Random(common.seed())
     tie = {"evaluations": 0, "distinct_nontrivial": 0, "failing": [], "broken": [], "broken_details": [], "known": [], "samples": [], "extra": {}}
     groups = list(spellings.generate())
